@@ -557,16 +557,7 @@ func runC14(tier string, seed int64) *Outcome {
 				sort.Strings(nj)
 				res.Sample = map[string]any{"secretLen": len(secret), "profiling": profiling, "routes": env.routes, "credentialClasses": len(classes), "borderlineOutcomesNotJudged": nj}
 				// let the jobs end
-				for i := 0; i < 200; i++ {
-					w := env.sys.Gates.Waiting()
-					if len(w) == 0 && i > 5 {
-						break
-					}
-					for _, k := range w {
-						env.sys.Gates.Release(k[0], k[1], core.Outcome{Kind: core.OutOK})
-					}
-					time.Sleep(200 * time.Microsecond)
-				}
+				drv.DrainAll(env.sys)
 				env.sys.Close()
 			}
 		}
